@@ -1,11 +1,14 @@
 CFG = P(
     "c09",
+    pregen=["python3", "lib/rs2lean.py"],
+    model_search={"build": ["Cascette.Generated.CryptoSrc"], "cmd": ["lake", "env", "lean", "--run", "Search/C09.lean"]},
     model_is_spec=["salsa", "salsa_split", "hl", "hl2", "j96", "arc4", "arc4_split"],
     partial=[
         "MD5 (md-5 crate) and the SIMD intrinsics are compared by the run only (accelerated == scalar == std on every buffer length 0..=200 and every host CPU-feature subset); no Lean model of the intrinsics",
         "ARC4: round-trip, piecewise and key-length theorems are proved of the model; agreement of the model with RC4 is by the published known answers and the differential run",
     ],
     tb=[
+        "lib/rs2lean.py: translator from the straight-line Rust of quarter_round / generate_keystream (round loop, counter carry) / Salsa20Cipher::new state layout / mix / final_mix / both 12-arm lookup3 tails / block loops to Lean (Generated/CryptoSrc.lean, regenerated on every run); Proofs/CryptoTie.lean proves generated = model. Trusted: the translator's reading of that Rust subset; control flow around the fragments (apply_keystream loop, IV extension, early returns) is tied by the differential run only",
         "Spec/Salsa20.lean transcribes DJB's Salsa20 specification; checked against the spec's quarterround vectors and the ECRYPT 128-bit vector by kernel evaluation (tests of the transcription)",
         "Spec/Lookup3.lean transcribes lookup3.c hashlittle/hashlittle2; checked against lookup3.c's driver5 known answers in the run",
     ],
